@@ -232,7 +232,7 @@ def run(ctx):
     ctx.clause = ("in the ELF symbol readers: results of libelf accessors that fail on corrupted sections are checked "
                   "before use, reads through pointers into section data are preceded by a size test, divisions by "
                   "sh_entsize are guarded, and no assertion depends on file contents")
-    ctx.rules = ["R-ELFNULL", "R-ELFBOUND", "R-ELFBOUND/ENTSIZE", "R-INASSERT", "R-ELFALLOC", "R-LOOPPROG"]
+    ctx.rules = ["R-ELFNULL", "R-ELFBOUND", "R-ELFBOUND/WRAP", "R-ELFBOUND/ENTSIZE", "R-INASSERT", "R-ELFALLOC", "R-LOOPPROG"]
     with open(os.path.join(TABLES, "c34_tables.json")) as fh:
         T = json.load(fh)
     P = ctx.program(None)
